@@ -20,7 +20,8 @@ type c23Ev struct {
 }
 
 var c23Alphabet = []c23Ev{{0xff01, 0x00}, {0xff01, 0x0a}, {0xff01, 0x41}, {0xff01, 0xff}, {0xff02, 0x00}, {0xff02, 0x81}, {0xff02, 0x80}, {0xff02, 0x01}, {0xff02, 0xff},
-	{0xff00, 0x30}, {0xff04, 0x00}, {0xff0f, 0x00}, {0xc000, 0x41}, {0xff03, 0x41}}
+	{0xff00, 0x30}, {0xff04, 0x00}, {0xff0f, 0x00}, {0xc000, 0x41}, {0xff03, 0x41},
+	{0xff46, 0xc0}, {0xff40, 0x11}, {0xff26, 0x00}} // OAM DMA started, LCD off, sound off: none of them is any business of the serial port
 
 type c23Seq struct {
 	Seq      []int `json:"seq"`
@@ -188,14 +189,14 @@ func c23ROMCheck(l *explore.Local, _ struct{}, c c23ROM) *explore.Fail {
 func init() {
 	register("C23", "model_checking", func(c *Ctx) {
 		if c.R != nil {
-			c.R.Rule = "(a) every sequence of up to the length bound over 14 Mapper writes (SB with 4 values, SC in {00,81,80,01,FF}, JOYP, DIV, IF, WRAM, FF03), with a recording writer and with no writer, with and without machine cycles in between: the transcript must equal the SB writes in order after every write, SB/SC read FF; (b) every opcode executed with every pointer register, SP, n and nn aimed at FF00, FF01, FF02: the bytes delivered must equal the reference CPU's writes to FF01 (read-modify-write instructions write once, PUSH / LD (nn),SP hit FF01 with one of their two bytes); (c) blargg ROMs: transcript equals the SB stores decoded by a per-instruction monitor"
+			c.R.Rule = "(a) every sequence of up to the length bound over 17 Mapper writes (SB with 4 values, SC in {00,81,80,01,FF}, DMA start, LCD off, sound off, JOYP, DIV, IF, WRAM, FF03), with a recording writer and with no writer, with and without machine cycles in between: the transcript must equal the SB writes in order after every write, SB/SC read FF; (b) every opcode executed with every pointer register, SP, n and nn aimed at FF00, FF01, FF02: the bytes delivered must equal the reference CPU's writes to FF01 (read-modify-write instructions write once, PUSH / LD (nn),SP hit FF01 with one of their two bytes); (c) blargg ROMs: transcript equals the SB stores decoded by a per-instruction monitor"
 			c.R.Assumptions = []string{"delivery through gameboy.New's Config.SerialWriter wiring is compared in C26"}
 		}
 		n := 4
 		if c.Thorough() {
 			n = 5
 		}
-		explore.Product(c.R, "mapper-write-sequences", explore.PartOpt{Bound: fmt.Sprintf("all sequences of length <= %d", n), Domain: "14 writes (SB x 4 values, SC in {00,81,80,01,FF}, JOYP, DIV, IF, WRAM, FF03) x writer/no writer x ticking/not"},
+		explore.Product(c.R, "mapper-write-sequences", explore.PartOpt{Bound: fmt.Sprintf("all sequences of length <= %d", n), Domain: "17 writes (SB x 4 values, SC in {00,81,80,01,FF}, JOYP, DIV, IF, WRAM, FF03, DMA start, LCDC off, NR52 off) x writer/no writer x ticking/not"},
 			func(yield func(c23Seq) bool) {
 				seq := make([]int, 0, n)
 				var rec func() bool
